@@ -96,6 +96,127 @@ def _tokenize_body(kind_label, kind_const, extra_req=None):
 _tokenize_body("any-kind", lambda c: c.str("match_kind"))
 
 
+def _liquid_tag_tokens(expr_present):
+    @contract("liquid.builtin.tags.liquid_tag:_tokenize_liquid_expression", prop="C20", name=f"_tokenize_liquid_expression.loop-body[LIQUID_EXPR,expr={'present' if expr_present else 'empty'}]")
+    def tb(c):
+        """Token invariant through the {% liquid %} tag's line tokenizer: every token it yields
+        indexes into the TEMPLATE source at its own value, given that the parent token does and
+        that the text scanned is the parent token's value (call-site obligation below)."""
+        c.eager_generators = True
+        src = c.str("liquid_tag_body")
+        tsrc = c.str("template_source")
+        pstart = c.int("parent_start")
+        parent = c.obj("liquid.token:Token", "parent_token", kind=const("EXPRESSION"), value=src, start_index=pstart, source=tsrc)
+        # "text[i:i+len(v)] == v" is stated in its concatenation form text == pre ++ v ++ post with
+        # len(pre) == i (equivalent; string solvers decide the composition of two such facts at once,
+        # while the substring-of-substring form times out)
+        tpre, tpost = z3.String("template_before"), z3.String("template_after")
+        c.requires(z3.And(tsrc.t == z3.Concat(tpre, src.t, tpost), L(tpre) == pstart.t), "the parent token indexes into the template source at its value")
+        whole, name, expr = c.str("whole_match"), c.str("name_group"), c.str("expr_group")
+        s0, sn, se = c.int("match_start"), c.int("name_start"), c.int("expr_start")
+        for g, st_ in ((whole, s0), (name, sn), (expr, se)):
+            gpre, gpost = z3.String(str(g.t) + "_before"), z3.String(str(g.t) + "_after")
+            c.requires(z3.And(src.t == z3.Concat(gpre, g.t, gpost), L(gpre) == st_.t), "re: source[m.start(g):m.end(g)] == m.group(g)")
+        c.requires(L(name.t) > 0, "(?P<name>#|\\w+) is never empty")
+        c.requires((L(expr.t) > 0) if expr_present else (L(expr.t) == 0))
+        comment = c.str("comment_start_string")
+
+        def entry(eng, cc, func):
+            st = cc.st
+            node = func.node
+            _number_loops(node, cc.target)
+            loop = [n for n in ast.walk(node) if isinstance(n, ast.For)][0]
+            m = st.alloc(HObj(("re", "Match"), {"lastgroup": const("LIQUID_EXPR"), "__groups__": VConst({"0": whole, "name": name, "expr": expr}), "__starts__": VConst({"0": s0, "name": sn, "expr": se}), "__ends__": VConst({})}, {}, "match"))
+            st.locals.update({"source": src, "token": parent, "match": m, "comment_start_string": comment, "__frame__": VConst({"module": func.module, "cls": None, "closure": None, "qual": func.qual})})
+            st.ghost["__gen__"] = ((),)
+            outs = []
+            for s, o in eng.exec_block(loop.body, st):
+                toks = list(s.ghost["__gen__"][-1])
+                if isinstance(o, Raised):
+                    outs.append((s, o))
+                else:
+                    outs.append((s, Ret(VTuple(tuple(toks)))))
+            return outs
+        c.entry = entry
+
+        def post(r):
+            # linear form: the token's value is a group of the match, its source is the template
+            # source, its offset is the parent's offset plus the group's offset in the scanned text;
+            # with the lemma below (instantiated t := template source, s := scanned text, n := group)
+            # this is "source[start_index:][:len(value)] == value"
+            conj = []
+            for tok in r.value.items:
+                f = r.st.deref(tok).fields
+                v, si, so = f["value"].t, f["start_index"].t, f["source"].t
+                conj.append(z3.And(so == tsrc.t, z3.Or(z3.And(v == name.t, si == pstart.t + sn.t), z3.And(v == expr.t, si == pstart.t + se.t))))
+            return z3.And(*conj) if conj else z3.BoolVal(True)
+        c.ensures("every-yielded-token-is-a-match-group-at-parent-offset-plus-group-offset-in-the-template-source", post)
+
+        def lemma(r):
+            t, A, s_, B_, C, n, D = z3.Strings("t!l A!l s!l B!l C!l n!l D!l")
+            p_, q_ = z3.Ints("p!l q!l")
+            hyp = z3.And(t == z3.Concat(A, s_, B_), L(A) == p_, s_ == z3.Concat(C, n, D), L(C) == q_)
+            return z3.Implies(hyp, z3.And(p_ + q_ >= 0, p_ + q_ + L(n) <= L(t), z3.SubString(t, p_ + q_, L(n)) == n))
+        c.ensures("lemma:offsets-compose(t[p:][:len(s)]==s and s[q:][:len(n)]==n imply t[p+q:][:len(n)]==n)", lemma)
+        c.ensures("a-tag-line-yields-its-name-token-unless-it-is-a-comment", lambda r: z3.Or(name.t == comment.t, z3.BoolVal(len(r.value.items) == (2 if expr_present else 1))))
+        c.raises()
+        c.assume_note("re match record: source[m.start(g):m.start(g)+len(m.group(g))] == m.group(g) for the groups 0, name, expr (DESIGN 3)")
+        c.replay("code", code=REPLAY_LIQUID_TAG)
+
+
+for _ep in (True, False):
+    _liquid_tag_tokens(_ep)
+
+
+@structural("C20", "liquid-tag-call-site")
+def liquid_tag_call_site():
+    """LiquidTag.parse scans exactly the value of the token it passes as `token=` (so offsets
+    inside the scanned text are offsets inside that token)"""
+    mod = load.get_module("liquid.builtin.tags.liquid_tag")
+    fn = load._last_def(mod.classes["LiquidTag"].body, "parse")
+    obs = []
+    n = 0
+    for call in flow.calls(fn):
+        if flow.dotted(call.func) == "self._tokenize":
+            n += 1
+            tok = flow.kwarg(call, "token")
+            a0 = call.args[0] if call.args else None
+            ok = tok is not None and a0 is not None and isinstance(tok, ast.Name) and ast.unparse(a0) == f"{tok.id}.value"
+            obs.append(flow.ob(f"parse@{call.lineno - fn.lineno}:scanned-text-is-the-value-of-the-token-passed", ok, ast.unparse(call)[:120], replay_schema="code", replay_extra={"code": REPLAY_LIQUID_TAG}))
+    obs.append(flow.ob("tokenize-call-found", n >= 1, f"{n} self._tokenize(...) calls"))
+    return obs
+
+
+REPLAY_LIQUID_TAG = r'''
+def run(m):
+    from liquid import Environment
+    from liquid.exceptions import LiquidSyntaxError
+    bad = []
+    env = Environment()
+    for nl in ("\n", "\r\n"):
+        src = "x{% liquid" + nl + "  assign a = b | upcase" + nl + "  echo a | append: c" + nl + "%}"
+        a = env.from_string(src).analyze()
+        for group in (a.variables, a.globals, a.filters, a.tags, a.locals):
+            for name, spans in group.items():
+                for sp in spans:
+                    idx = sp.index if hasattr(sp, "index") else sp.span.index
+                    root = str(name).split(".")[0].split("[")[0]
+                    if not src.startswith(root, idx):
+                        bad.append((repr(nl), name, idx, src[idx:idx + 8]))
+        try:
+            env.from_string("{% liquid" + nl + "  assign a = b |" + nl + "  echo a ||| c" + nl + "%}")
+        except LiquidSyntaxError as e:
+            try:
+                str(e); e.detailed_message() if hasattr(e, "detailed_message") else None
+                tok = e.token
+                if tok is not None and not (0 <= tok.start_index <= len(tok.source)):
+                    bad.append(("error-position-outside-source", tok.start_index, len(tok.source)))
+            except Exception as ex:
+                bad.append(("message-raises", repr(ex)))
+    return {"violated": bool(bad), "observed": bad[:4], "witness": "liquid-tag-locations"}
+'''
+
+
 @structural("C20", "token-sites")
 def token_sites():
     """every Token(...) constructed by the three tokenizers takes its start_index from a
